@@ -31,6 +31,8 @@ FIXED_BASES = [
     ("verif_fx_swapped", [["a", "x"], ["inv"], ["+", "-"]], 4),
     ("verif_fx_deep1", [["x", "a"], ["square"], ["/", "pow"]], 6),
     ("verif_fx_deep2", [["x", "a"], ["inv", "exp"], ["*", "-"]], 5),
+    # the rewriting rules that pull powers out of a logarithm (log_abs(inv(H)) - G -> -log_abs(H) - G) first apply at complexity 5
+    ("verif_fx_logrule", [["x", "a"], ["inv", "log_abs"], ["+", "-", "*"]], 5),
 ]
 
 
